@@ -438,12 +438,10 @@ func c27FsmCodecs() []*kit.Codec {
 }
 
 func TestVerifC27Fsm(t *testing.T) {
-	r := ev.Start(t, "C27")
-	defer r.Finish()
-	codecs := c27FsmCodecs()
-	k := kit.NewRunner(r)
-	k.Run(codecs)
-	if r.Replay() == nil {
-		r.Guard("fsm-codecs", len(codecs) >= 25 && len(commandDecoders) >= 40, "codecs=%d registered command types=%d", len(codecs), len(commandDecoders))
-	}
+	kit.Main(t, "C27", c27FsmCodecs, func(r *ev.R, replaying bool) {
+		if !replaying {
+			n := len(c27FsmCodecs())
+			r.Guard("fsm-codecs", n >= 25 && len(commandDecoders) >= 40, "codecs=%d registered command types=%d", n, len(commandDecoders))
+		}
+	})
 }
